@@ -1,0 +1,28 @@
+//go:build verif
+
+package repl
+
+// Verification hook (build tag `verif` only): named crash points of the auto-save path.
+// With VERIF_CRASH_AT=<name>#<k> in the environment the process kills itself (SIGKILL, no deferred
+// calls, no flushing) at the k-th hit of crash point <name>. Without that variable it does nothing.
+// Names used in AutoSave: start, created, written, renamed.
+
+import (
+	"os"
+	"strconv"
+	"syscall"
+)
+
+var verifCrashHits = map[string]int{}
+
+func verifCrashPoint(name string) {
+	spec := os.Getenv("VERIF_CRASH_AT")
+	if spec == "" {
+		return
+	}
+	verifCrashHits[name]++
+	if spec == name+"#"+strconv.Itoa(verifCrashHits[name]) {
+		_ = syscall.Kill(os.Getpid(), syscall.SIGKILL)
+		select {} // SIGKILL is not deliverable to a handler; never continue past the crash point.
+	}
+}
